@@ -136,6 +136,14 @@ def run_convert(plan, cov, events):
   spec = plan["matrix"]
   M = make_matrix(spec)
   n = M.shape[0]
+  eps_m = np.finfo(float).eps
+  if spec.get("dtype") == "float32" and spec["kind"] in ("psd", "diag", "indefinite") and \
+      abs(spec.get("lo", -3)) <= 3 and abs(spec.get("hi", 3)) <= 3:
+    # single-precision input: PSD "up to rounding" means up to *its* rounding
+    M = M.astype(np.float32)
+    M = ((M + M.T) / 2).astype(np.float32)
+    eps_m = float(np.finfo(np.float32).eps)
+    cov["convert_float32"] += 1
   tol = plan.get("tol")
   Mc = M.copy()
   with NpCounting() as npc, world.observed():
@@ -162,9 +170,9 @@ def run_convert(plan, cov, events):
                       "a clearly non-symmetric matrix gave %s instead of ValueError" % outcome)
     cov["convert_nonsym_checked"] += 1
     return "nonsym"
-  w = np.linalg.eigvalsh((M + M.T) / 2)
-  tol_eff = tol if tol is not None else np.abs(w).max() * n * np.finfo(float).eps
-  noise = 50 * n * np.finfo(float).eps * np.abs(w).max()
+  w = np.linalg.eigvalsh((M.astype(float) + M.T.astype(float)) / 2)
+  tol_eff = tol if tol is not None else np.abs(w).max() * n * eps_m
+  noise = 50 * n * eps_m * np.abs(w).max()
   lam = w.min()
   if lam < -(4 * tol_eff + noise) - 1e-300:
     if not isinstance(exc, NonPSDError):
@@ -188,8 +196,8 @@ def run_convert(plan, cov, events):
                     "PSD matrix (lambda_min=%g, tol=%g) gave %s: %s" % (lam, tol_eff, outcome, exc))
   if not isinstance(L, np.ndarray) or L.shape != (n, n) or not np.isfinite(L).all():
     raise Violation("convert", "shape", "L has shape %s" % (getattr(L, "shape", None),))
-  err = np.abs(L.T.dot(L) - M).max()
-  bound = 1e-9 * norm + n * max(-lam, 0) * 2 + (n * tol_eff if lam < 0 else 0)
+  err = np.abs(L.astype(float).T.dot(L.astype(float)) - M.astype(float)).max()
+  bound = (1e-9 if eps_m < 1e-10 else 1e-4) * norm + n * max(-lam, 0) * 2 + (n * tol_eff if lam < 0 else 0)
   if err > bound:
     raise Violation("convert", "LtL_ne_M,path=%s" % path,
                     "max|L^T L - M| = %g (bound %g, ||M||=%g, rank %s, path %s)"
@@ -472,7 +480,10 @@ def read_init(learner, D, y, init, k, seed):
     if probe.missing:
       raise Inconclusive("seam_missing_minimize")
     est = (ml.NCA if learner == "NCA" else ml.MLKR)(max_iter=1, **kw)
-    est.fit(D.X.copy(), (y if learner == "NCA" else D.yreg).copy())
+    yr = D.yreg
+    if getattr(D, "int_targets", False):
+      yr = np.round(D.yreg * 2.0)        # regression targets that happen to be whole numbers
+    est.fit(D.X.copy(), (y if learner == "NCA" else yr).copy())
   if probe.calls != 1:
     raise Inconclusive("probe_not_called_once")
   return est.components_, probe
@@ -480,6 +491,7 @@ def read_init(learner, D, y, init, k, seed):
 
 def run_init(plan, cov, events):
   D = make_data(plan["dataset"])
+  D.int_targets = bool(plan.get("int_targets"))
   d, n = D.d, D.n
   learner = plan["learner"]
   opt = plan["option"]
@@ -506,6 +518,19 @@ def run_init(plan, cov, events):
   init = arr if arr is not None else opt
   arr_dg = digest(arr) if arr is not None else None
   world.perturb_ambient(plan["ambient"], 3)
+  for other in plan.get("prehistory") or []:
+    # earlier life of the process: other learners have been fitted here before
+    # (what an option means must not depend on that)
+    import metric_learn as ml
+    try:
+      with world.observed():
+        if other["learner"] == "MLKR":
+          ml.MLKR(init=other["init"], max_iter=1, random_state=1).fit(D.X.copy(), D.yreg.copy())
+        else:
+          getattr(ml, other["learner"])(init=other["init"], max_iter=2, random_state=1).fit(D.X.copy(), y.copy())
+    except Exception:
+      pass
+    cov["init_with_process_prehistory"] += 1
   with world.observed():
     try:
       L, _ = read_init(learner, D, y, init, k, seed)
@@ -598,6 +623,9 @@ def gen_plan(seed, tier):
                           eps=r.choice([1e-15, 1e-13, 1e-9, 1e-6, 1e-3]),
                           neg=r.choice([1e-3, 1e-1, 1.0, 1e-6]))
     plan["tol"] = r.choice([None, None, 0.0, 1e-12, 1e-6, 1e-2])
+    if substream(seed, "c20-f32").random() < 0.12:
+      plan["matrix"]["dtype"] = "float32"
+      plan["tol"] = None
   elif cfg == "prior":
     desc = gen_dataset(r, dmax=5)
     desc["tuples"] = r.randint(12, 30)
@@ -617,6 +645,16 @@ def gen_plan(seed, tier):
                                  "array_badcols", "array_toomanyrows", "array_rowsmismatch"]),
                 k=r.choice([None] + list(range(1, d + 1))), seed=r.randrange(10**6),
                 arr_seed=r.randrange(10**6))
+  if cfg == "init" and plan["learner"] == "MLKR":
+    rq = substream(seed, "c20-mlkr")
+    plan["int_targets"] = rq.random() < 0.5
+    if rq.random() < 0.35:
+      plan["option"] = "lda"          # not an option for a regression learner: must be refused
+  if cfg == "init" and substream(seed, "c20-pre").random() < 0.35:
+    rp = substream(seed, "c20-pre2")
+    plan["prehistory"] = [dict(learner=rp.choice(["LMNN", "NCA", "MLKR"]),
+                               init=rp.choice(["auto", "pca", "identity", "random", "lda"]))
+                          for _ in range(rp.randint(1, 2))]
   if cfg in ("prior", "init"):
     from ..estimators import gen_layout
     lay = gen_layout(substream(seed, "c20-layout"), 0.4)
